@@ -115,7 +115,12 @@ type recNode struct {
 	A    *recNode            `config:"a"`
 	L    []recNode           `config:"l"`
 	M    map[string]*recNode `config:"m"`
+	LL   recList             `config:"l"`
+	OL   map[string]recList  `config:"o"`
 }
+
+// recList is a list type whose elements are lists of the same type
+type recList []recList
 
 // exercise calls every read entry point on c; only "returns" is asserted.
 func exercise(c *ucfg.Config, opts []ucfg.Option) {
@@ -517,13 +522,14 @@ var oddBase = map[string]reflect.Type{
 	"int": reflect.TypeOf(int(0)), "string": reflect.TypeOf(""), "bool": reflect.TypeOf(false), "float": reflect.TypeOf(1.5), "dur": reflect.TypeOf(time.Second),
 	"[]byte": reflect.TypeOf([]byte{}), "map[iface]iface": reflect.TypeOf(map[interface{}]interface{}{}), "Config": reflect.TypeOf(ucfg.Config{}),
 	"nbool": reflect.TypeOf(NBool(false)), "nfloat": reflect.TypeOf(NFloat(0)), "nuint": reflect.TypeOf(NUint(0)), "ndur": reflect.TypeOf(NDur(0)),
+	"map[nstr]": reflect.TypeOf(map[NStr]int{}), "map[nstr]iface": reflect.TypeOf(map[NStr]interface{}{}), "reclist": reflect.TypeOf(recList{}),
 	"regexp": reflect.TypeOf((*regexp.Regexp)(nil)), "regexpval": reflect.TypeOf(regexp.Regexp{}), "rec": reflect.TypeOf(recNode{}),
 	"*iface": reflect.TypeOf((*interface{})(nil)), "[]*iface": reflect.TypeOf([]*interface{}{}), "nstr": reflect.TypeOf(NStr("")), "nint": reflect.TypeOf(NInt(0)), "uint8": reflect.TypeOf(uint8(0)), "float32": reflect.TypeOf(float32(0)),
 }
 
 var oddNames = func() []string {
 	names := []string{"chan", "func", "complex", "uintptr", "map[int]", "error", "unsafe", "stringer", "time", "[0]int", "struct{}", "iface", "*Config", "map[string]*Config",
-		"int", "string", "bool", "float", "dur", "[]byte", "map[iface]iface", "nstr", "nint", "uint8", "float32", "*iface", "[]*iface", "nbool", "nfloat", "nuint", "ndur", "regexp", "regexpval", "rec"}
+		"int", "string", "bool", "float", "dur", "[]byte", "map[iface]iface", "nstr", "nint", "uint8", "float32", "*iface", "[]*iface", "nbool", "nfloat", "nuint", "ndur", "regexp", "regexpval", "rec", "map[nstr]", "map[nstr]iface", "reclist"}
 	return names
 }()
 
